@@ -1,0 +1,14 @@
+//go:build verif
+
+package keeper
+
+import (
+	sdk "github.com/pokt-network/pocket-core/types"
+	pc "github.com/pokt-network/pocket-core/x/pocketcore/types"
+)
+
+// VerifC32PseudorandomIndex exposes the unexported getPseudorandomIndex (the leaf index a proof
+// for this claim has to open) to the verification harness.  Read-only.
+func (k Keeper) VerifC32PseudorandomIndex(ctx sdk.Ctx, totalRelays int64, header pc.SessionHeader, sessionCtx sdk.Ctx) (int64, error) {
+	return k.getPseudorandomIndex(ctx, totalRelays, header, sessionCtx)
+}
